@@ -72,15 +72,29 @@ Section All.
 Variables (c0 : ascii) (rest : string) (s : string).
 Hypothesis Hhead : class_match cls_id_head (b2z c0) = true.
 Hypothesis Htail : tail_ok rest.
-Hypothesis Hn : b2z c0 <> 110%Z.
 Let name := String c0 rest.
+Hypothesis Hn : name <> "not".          (* the only identifier that is not a selector at the head of an expression *)
+
+Lemma b2z_inj a b : b2z a = b2z b -> a = b.
+Proof.
+  unfold b2z. intros H. apply N2Z.inj in H.
+  rewrite <- (ascii_N_embedding a), <- (ascii_N_embedding b), H. reflexivity.
+Qed.
+
+Lemma name_runes : map crune (acell c0 :: acells rest) <> [110; 111; 116]%Z.
+Proof.
+  intros H. apply Hn. unfold name.
+  destruct rest as [|c1 [|c2 [|c3 r]]]; cbn [acells map] in H; try discriminate.
+  inversion H as [[E0 E1 E2]].
+  rewrite (b2z_inj c0 "n" E0), (b2z_inj c1 "o" E1), (b2z_inj c2 "t" E2). reflexivity.
+Qed.
 
 Theorem c16_literal_fidelity_all :
   exists f0, forall f, (f0 <= f)%nat -> exists n,
     parse go_grammar None action_sem pred_sem f (name ++ " == " ++ quote_double s)
     = Accepted (VExpr (EMatch {| stype := SelBexpr; spath := [name] |} OpEq (Some s))) n.
 Proof.
-  set (sr := of_mixed (acell c0) (acells rest) [] Hhead (tail_cells rest Htail) (Forall_nil _) Hn).
+  set (sr := of_mixed (acell c0) (acells rest) [] Hhead (tail_cells rest Htail) (Forall_nil _) (or_introl name_runes)).
   set (a := {| p_op := VEq; p_lay := lay_sp; p_lit := of_any s; p_sr := sr |}).
   assert (Hexp : p_exp a = EMatch {| stype := SelBexpr; spath := [name] |} OpEq (Some s)).
   { unfold p_exp, p_sel, a, sr. cbn [p_sr p_op p_lit s_val of_mixed of_any v_lit mop_of map].
@@ -106,7 +120,12 @@ Print Assumptions c16_literal_fidelity_all.
 Example usr_bin : exists f0, forall f, (f0 <= f)%nat -> exists n,
   parse go_grammar None action_sem pred_sem f ("X == " ++ quote_double "/usr/bin")
   = Accepted (VExpr (EMatch {| stype := SelBexpr; spath := ["X"] |} OpEq (Some "/usr/bin"))) n.
-Proof. refine (c16_literal_fidelity_all "X" "" "/usr/bin" _ _ _); [reflexivity| exact I| cbn; discriminate]. Qed.
+Proof. refine (c16_literal_fidelity_all "X" "" "/usr/bin" _ _ _); [reflexivity| exact I| discriminate]. Qed.
+(* a selector that begins like the keyword `not` *)
+Example name_selector : exists f0, forall f, (f0 <= f)%nat -> exists n,
+  parse go_grammar None action_sem pred_sem f ("notes == " ++ quote_double "x")
+  = Accepted (VExpr (EMatch {| stype := SelBexpr; spath := ["notes"] |} OpEq (Some "x"))) n.
+Proof. refine (c16_literal_fidelity_all "n" "otes" "x" _ _ _); [reflexivity| repeat split| discriminate]. Qed.
 Example usr_bin_computed : exists n, parse go_grammar None action_sem pred_sem 3000 "X == ""/usr/bin"""
   = Accepted (VExpr (EMatch {| stype := SelBexpr; spath := ["X"] |} OpEq (Some "/usr/bin"))) n.
 Proof. eexists. vm_compute. reflexivity. Qed.
